@@ -1,5 +1,5 @@
 (* Proofs about Model/Py.v (property C18). *)
-From WV Require Import Model.Base Model.Bits Model.WaveMem Model.Signals Model.Py.
+From WV Require Import Model.Base Model.Bits Model.WaveMem Model.Signals Model.Py Spec.OffsetSpec Proofs.SignalsProofs.
 From Coq Require Import Lia Sorted ZifyBool ZifyNat ZifyN.
 Ltac Zify.zify_post_hook ::= Z.div_mod_to_equations.
 Open Scope N_scope.
@@ -96,3 +96,101 @@ Qed.
 Example value_at_time_example :
   count_le [0; 5; 10] 6 = 2%nat /\ count_le [3; 5] 2 = 0%nat /\ count_le [0; 5; 10] 99 = 3%nat.
 Proof. repeat split; reflexivity. Qed.
+
+
+(* ---------- Signal.all_changes(): one entry per stored change ---------- *)
+
+(* the position the iterator reads for the change at `offset`: the binary search for the change's own time index
+   lands in the group that contains `offset`, so element offset - start of that group is `offset` itself *)
+Lemma change_at_spec tt s offset t : sorted (s_idx s) -> run_fits_u16 (s_idx s) ->
+  nth_error (s_idx s) offset = Some t -> (N.to_nat t < length tt)%nat ->
+  change_at tt s offset = do v <- get_value_at (s_data s) offset; Ok (Some (nth (N.to_nat t) tt 0, to_py v)).
+Proof.
+  intros Hs Hfit Hn Ht. unfold change_at. rewrite Hn.
+  assert (Hoff : (offset < length (s_idx s))%nat) by (apply nth_error_Some; congruence).
+  assert (Hat : at_ (s_idx s) offset = t) by (unfold at_; now apply nth_error_nth).
+  assert (Hsome : ~ no_change_le (s_idx s) t).
+  { intros H. specialize (H offset Hoff). rewrite Hat in H. lia. }
+  destruct (get_offset_some (s_idx s) t Hs Hfit Hsome) as (st & e & tm & nx & Hg & Hspec). rewrite Hg. cbn [bind].
+  destruct Hspec as [Hne Hrange Hle Hgroup Hfirst Hgreatest Hmax _ _].
+  assert (Hin : (st <= offset < st + e)%nat).
+  { split.
+    - destruct (Nat.le_gt_cases st offset) as [H|H]; [exact H|]. specialize (Hfirst offset H). rewrite Hat in Hfirst. lia.
+    - destruct (Nat.lt_ge_cases offset (st + e)) as [H|H]; [exact H|]. specialize (Hgreatest offset (conj H Hoff)). rewrite Hat in Hgreatest. lia. }
+  cbn [do_start do_elements]. unfold usub. destruct (Nat.leb_spec st offset) as [_|Hc]; [|lia]. cbn [bind].
+  assert (He : N.of_nat e < 65536) by (apply (Hfit st e); [exact Hgroup|exact Hrange]).
+  unfold u16_wrap. rewrite N.mod_small by lia.
+  unfold get_value_pos. cbn [do_elements do_start]. destruct (N.ltb_spec (N.of_nat (offset - st)) (N.of_nat e)) as [_|Hc]; [|lia].
+  cbn [bind]. rewrite Nat2N.id. replace (st + (offset - st))%nat with offset by lia.
+  destruct (get_value_at (s_data s) offset) as [v| |]; cbn [bind]; try reflexivity.
+  rewrite (nth_error_nth' tt 0 Ht). reflexivity.
+Qed.
+
+(* Property C18, all_changes(): exactly the changes iter_changes reports, each with the time of its time-table index
+   and its value converted to a Python object - in particular every change of a time step with several changes *)
+Theorem all_changes_spec tt s : sorted (s_idx s) -> run_fits_u16 (s_idx s) ->
+  Forall (fun t => (N.to_nat t < length tt)%nat) (s_idx s) ->
+  all_changes tt s
+  = do l <- observe_signal s; Ok (map (fun x : N * value_kind * list byte => (nth (N.to_nat (fst (fst x))) tt 0, to_py (snd (fst x), snd x))) l).
+Proof.
+  intros Hs Hfit Hall. unfold all_changes, observe_signal.
+  assert (G : forall todo done, s_idx s = done ++ todo ->
+            all_changes_from (S (length todo)) tt s (length done)
+            = do l <- outcome_map (fun '(k, t) => do v <- get_value_at (s_data s) k; Ok (t, fst v, snd v))
+                                  (combine (seq (length done) (length todo)) todo);
+              Ok (map (fun x : N * value_kind * list byte => (nth (N.to_nat (fst (fst x))) tt 0, to_py (snd (fst x), snd x))) l)).
+  { induction todo as [|t todo IH]; intros done E.
+    - cbn [all_changes_from length seq combine outcome_map bind map].
+      assert (Hn : nth_error (s_idx s) (length done) = None) by (apply nth_error_None; rewrite E, app_length; cbn; lia).
+      unfold change_at. rewrite Hn. reflexivity.
+    - assert (Hn : nth_error (s_idx s) (length done) = Some t).
+      { rewrite E, nth_error_app2 by lia. now rewrite Nat.sub_diag. }
+      assert (Ht : (N.to_nat t < length tt)%nat).
+      { rewrite Forall_forall in Hall. apply Hall. rewrite E. apply in_or_app. right. now left. }
+      cbn [length]. change (all_changes_from (S (S (length todo))) tt s (length done))
+        with (do c <- change_at tt s (length done);
+              match c with None => Ok [] | Some x => do r <- all_changes_from (S (length todo)) tt s (S (length done)); Ok (x :: r) end).
+      rewrite (change_at_spec tt s (length done) t Hs Hfit Hn Ht).
+      cbn [seq combine outcome_map].
+      destruct (get_value_at (s_data s) (length done)) as [[k v]| |]; cbn [bind fst snd]; try reflexivity.
+      specialize (IH (done ++ [t])). rewrite app_length in IH. cbn [length] in IH. rewrite Nat.add_1_r in IH.
+      rewrite IH by (now rewrite <- app_assoc).
+      destruct (outcome_map _ _) as [l| |]; cbn [bind map fst snd]; reflexivity. }
+  exact (G (s_idx s) [] eq_refl).
+Qed.
+
+Lemma no_change_le_dec l i : no_change_le l i \/ ~ no_change_le l i.
+Proof.
+  destruct (forallb (fun x => i <? x) l) eqn:E.
+  - left. intros q Hq. rewrite forallb_forall in E. specialize (E (at_ l q) (nth_In l 0 Hq)). lia.
+  - right. intros H. assert (forallb (fun x => i <? x) l = true); [|congruence].
+    apply forallb_forall. intros x Hx. apply (In_nth l x 0) in Hx as (q & Hq & <-). specialize (H q Hq). unfold at_ in H. lia.
+Qed.
+
+(* Property C18, value_at_idx(i): the value of the last change of the group carrying the greatest time index <= i
+   (the value the signal holds at the end of that time step), None before the first change *)
+Theorem value_at_idx_spec s i : sorted (s_idx s) -> run_fits_u16 (s_idx s) ->
+  (no_change_le (s_idx s) i /\ value_at_idx s i = Ok None) \/
+  (exists st e tm nx, group_spec (s_idx s) i st e tm nx /\
+     value_at_idx s i = do v <- get_value_at (s_data s) (st + e - 1); Ok (Some (to_py v))).
+Proof.
+  intros Hs Hfit. unfold value_at_idx.
+  destruct (get_offset (s_idx s) i) as [[d|]| |] eqn:Eg.
+  - right.
+    assert (Hsome : ~ no_change_le (s_idx s) i).
+    { intros H. apply (get_offset_none (s_idx s) i Hs) in H. rewrite H in Eg. discriminate. }
+    destruct (get_offset_some (s_idx s) i Hs Hfit Hsome) as (st & e & tm & nx & Hg & Hspec).
+    rewrite Hg in Eg. inversion Eg; subst d. exists st, e, tm, nx. split; [exact Hspec|]. cbn [bind do_elements].
+    destruct Hspec as [Hne Hrange _ Hgroup _ _ _ _ _].
+    assert (He : N.of_nat e < 65536) by (apply (Hfit st e); [exact Hgroup|exact Hrange]).
+    unfold nsub. destruct (N.leb_spec 1 (N.of_nat e)) as [_|Hc]; [|lia]. cbn [bind].
+    unfold get_value_pos. cbn [do_elements do_start]. destruct (N.ltb_spec (N.of_nat e - 1) (N.of_nat e)) as [_|Hc]; [|lia].
+    cbn [bind]. replace (st + N.to_nat (N.of_nat e - 1))%nat with (st + e - 1)%nat by lia. reflexivity.
+  - left. split; [now apply (get_offset_none (s_idx s) i Hs)|reflexivity].
+  - exfalso. destruct (no_change_le_dec (s_idx s) i) as [H|H].
+    + apply (get_offset_none (s_idx s) i Hs) in H. rewrite H in Eg. discriminate.
+    + destruct (get_offset_some (s_idx s) i Hs Hfit H) as (st & e & tm & nx & Hg & _). rewrite Hg in Eg. discriminate.
+  - exfalso. destruct (no_change_le_dec (s_idx s) i) as [H|H].
+    + apply (get_offset_none (s_idx s) i Hs) in H. rewrite H in Eg. discriminate.
+    + destruct (get_offset_some (s_idx s) i Hs Hfit H) as (st & e & tm & nx & Hg & _). rewrite Hg in Eg. discriminate.
+Qed.
